@@ -81,6 +81,19 @@ func (vfs *MemFS) searchNodeOnce(path string, slMode slMode) (
 
 	parent = volNode
 
+	// The root directory of a view obtained with Sub may have been removed through another view :
+	// nothing can be found or created below it any more.
+	verifYield(&volNode.mu, false)
+	volNode.mu.RLock()
+	gone := volNode.removed
+	volNode.mu.RUnlock()
+
+	if gone {
+		err = vfs.err.NoSuchDir
+
+		return
+	}
+
 	for pi.Next() {
 		name := pi.Part()
 
